@@ -1809,6 +1809,10 @@ func (kmc *KeystoreManagerForPoC) ChangePrivPassphrase(oldPrivPass, newPrivPass 
 		copy(addrManager.cryptoKeyPrivEncrypted, cPrivKeyEnc)
 		addrManager.masterKeyPriv.Zero()
 		addrManager.masterKeyPriv = newMasterPrivKey
+		if !addrManager.unlocked {
+			// locked: do not keep the clear text master key in memory
+			addrManager.masterKeyPriv.Zero()
+		}
 		addrManager.privPassphraseSalt = passphraseSalt
 		addrManager.hashedPrivPassphrase = hashedPassphrase
 	}
